@@ -68,6 +68,12 @@ func (s *metricSchemaStore) GetSchema(id metric.ID) (schema *metric.Schema, err 
 	if schema != nil {
 		return schema, nil
 	}
+	// NOTE: loads from kv and fills the cache under the read lock: Flush purges the cache under the write lock
+	// after it wrote the new schema into kv, else a schema which is loaded before that write can be put into the
+	// cache after the purge, and the stale schema(new field/tag key lost) is extended by next field/tag key.
+	s.lock.RLock()
+	defer s.lock.RUnlock()
+
 	schema, ok := s.cache.Get(id)
 	if ok {
 		return schema, nil
